@@ -866,6 +866,8 @@ func runC20(c *Ctx) {
 	ruleRowUniform(c, p, "C20.row-uniform")
 	ruleTicksOfArgument(c, p, "C20.ticks-of-arg")
 	ruleDayCarry(c, p, "C20.day-carry")
+	ruleAppendTail(c, p, "C20.tail")
+	ruleResetKeepsParameters(c, p, "C20.reset-keeps")
 	rulePerElementZone(c, p, "C20.per-element")
 
 	// ---- C20.family
@@ -1740,4 +1742,101 @@ func ruleDayCarry(c *Ctx, p *core.Program, rule string) {
 	}
 	c.R.Count("functions behind the day conversions", nf)
 	c.R.Floor(rule, cfg, nf, 2)
+}
+
+// ruleResetKeepsParameters (C20 / C16 / C18): Reset empties the rows and nothing else.
+func ruleResetKeepsParameters(c *Ctx, p *core.Program, rule string) {
+	c.R.Rule(rule, "for every column struct of package proto that has an Infer method: Reset does not assign a field that Infer assigns (the type parameters - interval scale, precision, location, enum definition, fixed size) and does not overwrite the whole struct: the client decodes every block as Infer -> type check -> Reset -> DecodeColumn, so a Reset that returns the column to its zero state throws away what Infer has just established - an Interval column reads every unit as seconds")
+	cfg := p.Cfg.Name
+	n := 0
+	for _, ct := range columnTypes(p) {
+		if _, ok := ct.Underlying().(*types.Struct); !ok {
+			continue
+		}
+		inf, rs := methodOf(p, ct, "Infer"), methodOf(p, ct, "Reset")
+		if inf == nil || rs == nil || inf.Blocks == nil || rs.Blocks == nil || len(rs.Params) == 0 {
+			continue
+		}
+		fieldsOf := func(fn *ssa.Function) (map[string]bool, bool) {
+			out := map[string]bool{}
+			whole := false
+			for g := range core.StaticReach(fn, 1) {
+				if g.Blocks == nil || core.RecvNamed2(g) == nil || core.RecvNamed2(g).Obj() != ct.Obj() || len(g.Params) == 0 {
+					continue
+				}
+				for _, b := range g.Blocks {
+					for _, in := range b.Instrs {
+						st, ok := in.(*ssa.Store)
+						if !ok {
+							continue
+						}
+						if st.Addr == ssa.Value(g.Params[0]) {
+							whole = true
+						}
+						if fa, ok := st.Addr.(*ssa.FieldAddr); ok && fa.X == ssa.Value(g.Params[0]) {
+							out[fieldNameOnly(fa.X.Type(), fa.Field)] = true
+						}
+					}
+				}
+			}
+			return out, whole
+		}
+		params, _ := fieldsOf(inf)
+		if len(params) == 0 {
+			continue
+		}
+		n++
+		key := ct.Obj().Name() + ".Reset"
+		resets, whole := fieldsOf(rs)
+		var clash []string
+		for f := range resets {
+			if params[f] {
+				// storage that Infer also (re)creates is fine when Reset only truncates it
+				clash = append(clash, f)
+			}
+		}
+		sort.Strings(clash)
+		// a field both set by Infer and truncated by Reset is row storage only if Reset's value is a re-slice of it
+		var real []string
+		for _, f := range clash {
+			onlyTrunc := true
+			for _, b := range rs.Blocks {
+				for _, in := range b.Instrs {
+					st, ok := in.(*ssa.Store)
+					if !ok {
+						continue
+					}
+					fa, ok := st.Addr.(*ssa.FieldAddr)
+					if !ok || fa.X != ssa.Value(rs.Params[0]) || fieldNameOnly(fa.X.Type(), fa.Field) != f {
+						continue
+					}
+					if _, isSl := st.Val.(*ssa.Slice); !isSl {
+						onlyTrunc = false
+					}
+				}
+			}
+			if !onlyTrunc {
+				real = append(real, f)
+			}
+		}
+		switch {
+		case whole:
+			c.R.Bad(rule, key, cfg, p.Pos(rs.Pos()), ct.Obj().Name()+".Reset overwrites the whole column value: the parameters set by Infer ("+strings.Join(strKeys(params), ", ")+") are back to their zero values before the block is decoded")
+		case len(real) > 0:
+			c.R.Bad(rule, key, cfg, p.Pos(rs.Pos()), ct.Obj().Name()+".Reset assigns "+strings.Join(real, ", ")+", which Infer sets: the inferred parameters are lost before the block is decoded")
+		default:
+			c.R.Ok(rule, key, cfg, p.Pos(rs.Pos()), "keeps "+strings.Join(strKeys(params), ", "))
+		}
+	}
+	c.R.Count("column structs with Infer and Reset["+cfg+"]", n)
+	c.R.Floor(rule, cfg, n, 4)
+}
+
+func strKeys(m map[string]bool) []string {
+	var out []string
+	for k := range m {
+		out = append(out, k)
+	}
+	sort.Strings(out)
+	return out
 }
